@@ -100,8 +100,13 @@ static void one(unsigned da, unsigned len)
         if (i >= dpos && i < dpos + len * ES) { if (a[i] != r[i]) in_ok = 0; }
         else if (a[i] != r[i]) out_ok = 0;
     }
-    CHECK(in_ok, "C06: primitive result differs from the memmove/memset reference inside the addressed elements");
-    CHECK(out_ok, "C01: primitive modified a byte outside the addressed elements");
+#if FN >= 4
+    CHECK(in_ok, "C06/C07: primitive result differs from the memmove reference (copy through a temporary) inside the addressed elements");
+    CHECK(out_ok, "C01/C07: primitive modified a byte outside the addressed elements");
+#else
+    CHECK(in_ok, "C06/C18: addressed elements do not all hold the fill value after the set primitive");
+    CHECK(out_ok, "C01/C18: set primitive changed a byte outside the requested elements");
+#endif
 }
 
 void harness(void)
